@@ -987,6 +987,7 @@ void GridFourier::loadConstructedPoint(const double x[], const std::vector<doubl
     }else if (result == DynamicConstructorDataGlobal::AddPointResult::tensor_missing){
         dynamic_values->addTensor(wrapper.getLevels(idx).data(), [&](int l)->int{ return wrapper.getNumPoints(l); },
                                   dynamic_values->getMaxTensorWeight() + 1.0);
+        loadConstructedTensors(); // the new tensor may already be complete, same as in the global grid
     }
 }
 void GridFourier::loadConstructedPoint(const double x[], int numx, const double y[]){
